@@ -219,7 +219,7 @@ def run(f, fixture, rep, cfg, tier):
 
     # ---- O8: the parse side keeps the size invariant too (C01.R5: the store is the whole declared data section) ----------
     rep.rule("O8", "a parsed header's store is the declared data section (C01.R5)")
-    rep.include("c01", f, fixture, cfg, tier, "O8", "parsed header store", only_rules={"R5"}, floor=2)
+    rep.include("c01", f, fixture, cfg, tier, "O8", "parsed header store; writers emit every segment they count", only_rules={"R5", "R1"}, floor=2)
 
 
 def check_invariant(f, rep, H, E):
